@@ -26,6 +26,8 @@ def generate(tier, rng):
             seen.add(t)
             out.append("RT %s %s" % (key, t))
             if len(seen) % 4 == 0: out.append("PFX %s %s" % (key, t))
+    d = tg.parse_desc("refcell(seq(u8))")
+    for _ in range(20): out.append("RCB %s" % tg.show(d, tg.rust_order(d, tg.gen_value(d, rng))))
     # large values: element counts and byte lengths around 2^16 (3-byte -> 5-byte heads; counters that are narrower than usize)
     def big(key, v):
         d = tg.parse_desc(key)
